@@ -37,6 +37,52 @@ static RFA g1word(uint64_t i)
 }
 static const uint64_t G1WORD = 93 * 16;
 
+// ---------------------------------------------------------------- G4: cut-downs of the shipped ARMC NFAs
+static std::vector<RFA>& faCorpus()
+{
+	static std::vector<RFA> c; static bool loaded = false; if (loaded) return c; loaded = true;
+	const char* names[] = {"0", "1", "10", "1072", "1073", "1074", "1075", "11", "12", "13", "14", "15"};
+	for (auto n : names)
+	{
+		std::string txt = slurpFile(std::string("/repo/tests/fa_timbuk_armc/armcNFA_inclTest_") + n); if (txt.empty() || txt.size() > 3000000) continue;
+		int ns; std::vector<RFA> auts; if (parseCaseTextFA(txt, ns, auts) >= 1 && !auts[0].tr.empty()) c.push_back(auts[0]);
+	}
+	return c;
+}
+// forward cut: the k states found first from `from`; finals = original finals inside the cut or the state found last
+static RFA cutFA(vh::Rng& g, const RFA& src, St from, size_t k, const std::map<St, std::vector<std::pair<int, St>>>& out)
+{
+	std::set<St> in{from}; std::vector<St> q{from}; St last = from;
+	for (size_t i = 0; i < q.size() && in.size() < k; ++i)
+	{
+		auto it = out.find(q[i]); if (it == out.end()) continue; auto es = it->second; std::shuffle(es.begin(), es.end(), g);
+		for (auto& e : es) if (in.size() < k && in.insert(e.second).second) { q.push_back(e.second); last = e.second; }
+	}
+	RFA r; r.start.insert(from);
+	for (St s : in) { auto it = out.find(s); if (it == out.end()) continue; for (auto& e : it->second) if (in.count(e.second)) r.tr.insert(std::make_tuple(s, e.first, e.second)); }
+	for (St s : in) if (src.fin.count(s)) r.fin.insert(s);
+	if (r.fin.empty() || g.chance(1, 3)) r.fin.insert(last);
+	return r;
+}
+static bool genCorpusPairFA(vh::Rng& g, int& nsym, RFA& a, RFA& b, std::string& kind)
+{
+	auto& c = faCorpus(); if (c.empty()) return false;
+	const RFA& x = g.pick(c);
+	std::map<St, std::vector<std::pair<int, St>>> out; for (auto& t : x.tr) out[std::get<0>(t)].push_back(std::make_pair(std::get<1>(t), std::get<2>(t)));
+	std::set<St> ss = x.states(); std::vector<St> st(ss.begin(), ss.end());
+	St from = (!x.start.empty() && g.chance(1, 2)) ? *x.start.begin() : st[g.below(st.size())];
+	a = cutFA(g, x, from, static_cast<size_t>(g.range(3, 9)), out);
+	int k = static_cast<int>(g.below(3));
+	if (k == 0) { b = cutFA(g, x, from, static_cast<size_t>(g.range(4, 12)), out); kind = "G4-armc-same-start"; }
+	else if (k == 1) { b = cutFA(g, x, st[g.below(st.size())], static_cast<size_t>(g.range(3, 10)), out); kind = "G4-armc-other"; }
+	else { b = a; if (!b.tr.empty() && g.chance(1, 2)) { auto it = b.tr.begin(); std::advance(it, g.below(b.tr.size())); b.tr.erase(it); } else { RFA e = cutFA(g, x, st[g.below(st.size())], 4, out); b.tr.insert(e.tr.begin(), e.tr.end()); b.start.insert(e.start.begin(), e.start.end()); b.fin.insert(e.fin.begin(), e.fin.end()); } kind = "G4-armc-mutated"; }
+	// densify states and symbols
+	auto dens = [](RFA& f, std::map<int, int>& sy) { std::map<St, St> m; for (St s : f.states()) { St v = m.size(); m[s] = v; } RFA r; for (St s : f.start) r.start.insert(m[s]); for (St s : f.fin) r.fin.insert(m[s]);
+		for (auto& t : f.tr) { auto it = sy.find(std::get<1>(t)); if (it == sy.end()) it = sy.insert(std::make_pair(std::get<1>(t), static_cast<int>(sy.size()))).first; r.tr.insert(std::make_tuple(m[std::get<0>(t)], it->second, m[std::get<2>(t)])); } f = r; };
+	std::map<int, int> sy; dens(a, sy); dens(b, sy); nsym = std::max<int>(1, static_cast<int>(sy.size()));
+	return a.states().size() <= 12 && b.states().size() <= 14;
+}
+
 static void genPairFARaw(uint64_t idx, vh::Rng& g, int& nsym, RFA& a, RFA& b, std::string& kind);
 static void genPairFA(uint64_t idx, vh::Rng& g, int& nsym, RFA& a, RFA& b, std::string& kind)
 {
@@ -57,6 +103,7 @@ static void genPairFARaw(uint64_t idx, vh::Rng& g, int& nsym, RFA& a, RFA& b, st
 		kind = "G1-word-pair"; nsym = 2; uint64_t k = (idx * 2654435761ull + R->seed * 7919) % (G1WORD * G1WORD);
 		a = g1word(k % G1WORD); b = g1word(k / G1WORD); return;
 	}
+	if (g.below(100) < static_cast<uint64_t>(R->param("corpus_percent", 5)) && genCorpusPairFA(g, nsym, a, b, kind)) return;
 	nsym = g.range(1, 3);
 	int k = static_cast<int>(g.below(10));
 	if (k < 2) { kind = "G2-random"; a = gen::randFA(g, S, T, nsym); b = gen::randFA(g, S, T, nsym); }
